@@ -153,6 +153,24 @@ def case_mask_subsets(col, p):
             if not (np.array_equal(np.ma.getmaskarray(pk), src_m) and np.array_equal(np.asarray(pk.data), src_d) and pk.folded == fs.folded):
                 col.violation('C14:pickle:mask', dict(p, bits=bits), '')
             cnt += 1
+            if folded:
+                # the same subset ASSIGNED as the mask of an already folded spectrum (entries of the folded-out half may then be unmasked,
+                # e.g. after unmasking a corner): the files store the mask entry by entry, whatever it is
+                fa = dadi.Spectrum(_dense(shape).copy(), mask_corners=False).fold()
+                fa.mask = mask.copy()
+                a_d, a_m = np.asarray(fa.data).copy(), np.ma.getmaskarray(fa).copy()
+                import logging
+                logging.disable(logging.WARNING)
+                try:
+                    fa.to_file(fn, precision=17)
+                    back = dadi.Spectrum.from_file(fn, mask_corners=False)
+                    pk = pickle.loads(pickle.dumps(fa, 2))
+                finally:
+                    logging.disable(logging.NOTSET)
+                col.tick(transitions=2)
+                _compare(col, 'C14:format_roundtrip', dict(p, bits=bits, mask_corners=False, mask_assigned_after_folding=True), back, a_d, a_m, True, None, 17)
+                if not (np.array_equal(np.ma.getmaskarray(pk), a_m) and np.array_equal(np.asarray(pk.data), a_d) and pk.folded):
+                    col.violation('C14:pickle:mask', dict(p, bits=bits, mask_assigned_after_folding=True), '')
         col.tick(states=cnt, traces=cnt)
     finally:
         shutil.rmtree(tmp, ignore_errors=True)
@@ -166,6 +184,9 @@ def case_format(col, p):
     d = len(shape)
     tmp = _tmp()
     n = 0
+    import logging
+    if p.get('assigned'):
+        logging.disable(logging.WARNING)      # the constructor logs a warning for every such spectrum
     try:
         fn = os.path.join(tmp, 'f.fs' + ('.gz' if gz else ''))
         for (mname, mask), lab, com, fmi, mc in itertools.product(_mask_patterns(shape), LABELSETS, range(len(COMMENTSETS)), (True, False), (True, False)):
@@ -177,6 +198,9 @@ def case_format(col, p):
                 fs = fs.fold()
             if mname == 'compressed':
                 fs.shrink_mask()
+            if folded and p.get('assigned'):
+                # the pattern assigned as the mask of the folded spectrum (folded-out entries may then be unmasked): stored entry by entry all the same
+                fs.mask = mask.copy()
             src_d, src_m = np.asarray(fs.data).copy(), np.ma.getmaskarray(fs).copy()
             info = dict(p, mask=mname, labels=lab, comments=com, foldmaskinfo=fmi, mask_corners=mc)
             try:
@@ -208,8 +232,9 @@ def case_format(col, p):
                 col.violation('C14:to_file:input_modified', info, '')
         col.tick(states=n, traces=n)
     finally:
+        logging.disable(logging.NOTSET)
         shutil.rmtree(tmp, ignore_errors=True)
-    col.distinct('nontrivial', ('format', shape, folded, gz))
+    col.distinct('nontrivial', ('format', shape, folded, gz, bool(p.get('assigned'))))
 
 
 def case_array_io(col, p):
@@ -409,6 +434,8 @@ def run(ctx):
         for folded in (False, True):
             for gz in (False, True):
                 cases.append({'kind': 'format', 'shape': shape, 'folded': folded, 'gz': gz})
+                if folded:
+                    cases.append({'kind': 'format', 'shape': shape, 'folded': folded, 'gz': gz, 'assigned': True})
     if ctx.quick:
         ctx.note('quick: format lattice on shapes up to 3-D; thorough adds the 4-D and 5-D shapes (value lattice always covers all shapes)')
     if not ctx.quick:
